@@ -299,20 +299,20 @@ type captureTB struct {
 
 type failNow struct{}
 
-func (c *captureTB) Helper()                     {}
-func (c *captureTB) Name() string                { return c.name }
-func (c *captureTB) Logf(f string, a ...any)     { c.logs = append(c.logs, fmt.Sprintf(f, a...)) }
-func (c *captureTB) Log(a ...any)                { c.logs = append(c.logs, fmt.Sprint(a...)) }
-func (c *captureTB) Skipf(f string, a ...any)    { panic(failNow{}) }
-func (c *captureTB) Skip(a ...any)               { panic(failNow{}) }
-func (c *captureTB) SkipNow()                    { panic(failNow{}) }
-func (c *captureTB) Errorf(f string, a ...any)   { c.failed = true; c.Logf(f, a...) }
-func (c *captureTB) Error(a ...any)              { c.failed = true; c.Log(a...) }
-func (c *captureTB) Fatalf(f string, a ...any)   { c.failed = true; c.Logf(f, a...); panic(failNow{}) }
-func (c *captureTB) Fatal(a ...any)              { c.failed = true; c.Log(a...); panic(failNow{}) }
-func (c *captureTB) FailNow()                    { c.failed = true; panic(failNow{}) }
-func (c *captureTB) Fail()                       { c.failed = true }
-func (c *captureTB) Failed() bool                { return c.failed }
+func (c *captureTB) Helper()                   {}
+func (c *captureTB) Name() string              { return c.name }
+func (c *captureTB) Logf(f string, a ...any)   { c.logs = append(c.logs, fmt.Sprintf(f, a...)) }
+func (c *captureTB) Log(a ...any)              { c.logs = append(c.logs, fmt.Sprint(a...)) }
+func (c *captureTB) Skipf(f string, a ...any)  { panic(failNow{}) }
+func (c *captureTB) Skip(a ...any)             { panic(failNow{}) }
+func (c *captureTB) SkipNow()                  { panic(failNow{}) }
+func (c *captureTB) Errorf(f string, a ...any) { c.failed = true; c.Logf(f, a...) }
+func (c *captureTB) Error(a ...any)            { c.failed = true; c.Log(a...) }
+func (c *captureTB) Fatalf(f string, a ...any) { c.failed = true; c.Logf(f, a...); panic(failNow{}) }
+func (c *captureTB) Fatal(a ...any)            { c.failed = true; c.Log(a...); panic(failNow{}) }
+func (c *captureTB) FailNow()                  { c.failed = true; panic(failNow{}) }
+func (c *captureTB) Fail()                     { c.failed = true }
+func (c *captureTB) Failed() bool              { return c.failed }
 
 func subSeed(seed int64, shard int, name string) uint64 {
 	s := evid.Hash([]byte(fmt.Sprintf("%d/%d/%s", seed, shard, name)))
